@@ -2,7 +2,7 @@
 # tools/confirm_seed.sh <name>   e.g. C06_a : confirm a seeded change from /tmp/seed_out/<name> in a scratch worktree of /repo HEAD:
 # applies, builds, passes `make check`, demo fails with it and passes without. Writes /tmp/seed_out/<name>/confirm.json
 set -u
-N=$1; D=/tmp/seed_out/$N; WT=/tmp/confirm_$N
+N=$1; D=${SEED_OUT:-/tmp/seed_out}/$N; WT=/tmp/confirm_$N
 [ -f $D/patch.diff ] || { echo "no patch for $N"; exit 2; }
 git -C /repo worktree remove --force $WT >/dev/null 2>&1; rm -rf $WT
 git -C /repo worktree add -f --detach $WT HEAD >/dev/null 2>&1 || exit 2
